@@ -14,6 +14,7 @@ ASSUMPTIONS = {
  'A9': 'A9 static method resolution: self.m() resolves to the class named in the spec',
  'A10': 'A10 left-to-right evaluation, insertion-ordered dicts; iteration order over a dict is arbitrary but duplicate-free',
  'A12': 'A12 BaseComponent.advance (utils/component.py) as used by the agent scheduler sets thing["state"], publishes and pushes as its arguments say and does not touch the scheduler\'s own structures; the agent-side wrapper AgentComponent.advance is under contract (C05), the base implementation is not',
+ 'A13': 'A13 radical.utils.lazy_bisect(data, check=..) (a dependency, not part of /repo): calls check at most once per element and nothing else that touches the scheduler, and returns three lists partitioning data into accepted / refused-or-skipped / raised; the scheduler-state summary after it composes the verified contract of _try_allocation over that call sequence (induction over the calls, not machine-checked)',
  'A11': 'A11 pyvc, z3 and cvc5 are the trusted computing base (canaries, cover checks, self-test edits and the CPython cross-check are the guards)',
 }
 
@@ -214,19 +215,19 @@ PROPS['C08'] = dict(
 
 PROPS['C04'] = dict(
     level='other',
-    claim='the agent scheduler loop (agent/scheduler/base.py) under contract, function by function: work() queues every task handed in exactly once; _schedule_incoming is verified in its parts - cancel branch, intake of a bulk (fail / schedule here / forward to raptor: exactly one), placement loop over priorities (each task started with a placement, failed, canceled or waiting under its priority: exactly one; every report is the first for its task; every started task is counted in _active_cnt), entry into the wait pool with the late cancel check; _try_allocation fails a task for lack of resources only when nothing is running; all obligations discharged for every bulk, pool and node list. Starvation / promptness / priority clauses over whole runs are decided by a bounded native search over histories of the real loop (labelled bounded); one recorded finding (partition tasks)',
-    note='the composition of the parts into whole runs (incoming queue -> wait pool -> release queue over time) is explored only by the bounded native histories; _schedule_waitpool and the resources flag of the main loop are not yet under contract; schedule_task completeness ("a task that fits the free resources is placed") is not proved',
-    assumptions=['A2', 'A4', 'A5', 'A7', 'A9', 'A10', 'A11', 'A12'],
-    trusted_base=['BaseComponent.advance: sets thing["state"], publishes and pushes as told (A12)'],
+    claim='the agent scheduler loop (agent/scheduler/base.py) under contract, function by function: work() queues every task handed in exactly once; _schedule_incoming is verified in its parts - cancel branch, intake of a bulk (fail / schedule here / forward to raptor: exactly one), placement loop over priorities (each task started with a placement, failed, canceled or waiting under its priority: exactly one; every report is the first for its task; every started task is counted in _active_cnt), entry into the wait pool with the late cancel check; _schedule_waitpool (every waiting task keeps waiting unchanged or is started / failed, nothing enters or is lost, pools are tried in strictly decreasing priority; ru.lazy_bisect by assumed contract A13); the main loop of _schedule_tasks (a release is followed by a wait-pool scan in the next iteration); _try_allocation fails a task for lack of resources only when nothing is running; all obligations discharged for every bulk, pool and node list. Starvation / promptness / priority clauses over whole runs are decided by a bounded native search over histories of the real loop (labelled bounded); one recorded finding (partition tasks)',
+    note='the composition of the parts into whole runs (incoming queue -> wait pool -> release queue over time) is explored only by the bounded native histories; schedule_task completeness ("a task that fits the free resources is placed") is not proved, so "started as soon as enough is released" is proved only up to "the wait pool is re-scanned in the iteration after a release, highest priority first"; tasks that arrive with a placement attached (description.slots) are excluded from the placement contract by precondition and covered natively only; the raptor backlog is not under contract',
+    assumptions=['A2', 'A4', 'A5', 'A7', 'A9', 'A10', 'A11', 'A12', 'A13'],
+    trusted_base=['BaseComponent.advance: sets thing["state"], publishes and pushes as told (A12)', 'radical.utils.lazy_bisect: partitions its input by the outcome of the check callable, at most one call per element (A13)'],
     explanation='ghost fate map (uid -> none / started / failed / canceled): every advance to AGENT_EXECUTING_PENDING, FAILED or CANCELED carries the obligation that the task had no fate yet; per-fragment contracts composed through statement contracts',
     bounded=[dict(name='sched-histories', cmd=['harness/run_bounded.py', 'sched-histories'], timeout=900)],
     clauses={'exactly one of started / waiting / failed / canceled (per function)': 'P',
              'reported at most once': 'P',
              'started only with a placement, pushed on': 'P',
              'failed for lack of resources only on an idle pilot (_active_cnt == 0)': 'P',
-             'waiting alone is started as soon as enough is released': 'B (bounded histories)',
+             'waiting alone is started as soon as enough is released': 'P: release => wait-pool scan in the next iteration; B for the placement itself',
              'idle pilot starts a fitting waiter; fitting task never failed': 'B (bounded histories); KNOWN FINDING for partition tasks',
-             'higher priority first': 'B (bounded histories)',
+             'higher priority first': 'P for the order in which pools are tried (_schedule_waitpool) + B (bounded histories)',
              'interleaving of cancel requests between loop steps': 'P at the queue boundary (cancel arrives as a queue item) + B'})
 
 PROPS['C05'] = dict(
